@@ -1268,7 +1268,11 @@ pub fn gen_soup(rng: &mut Rng) -> Vec<u8> {
         match info.shape {
             Shape::Lddw => {
                 v.push(Insn::new(opc, dst, if rng.chance(1, 8) { src } else { 0 }, off, imm));
-                v.push(Insn::new(0, 0, 0, 0, rng.next() as i32));
+                if rng.chance(1, 2) {
+                    v.push(Insn::new(0, 0, 0, 0, rng.next() as i32));
+                } else {
+                    v.push(Insn::new(0, rng.below(16) as u8, rng.below(16) as u8, rng.next() as i16, rng.next() as i32));
+                }
                 continue;
             }
             Shape::Endian => imm = *rng.pick(&[16, 32, 64]),
